@@ -212,7 +212,18 @@ fn verdicts(ctx: &Ctx, case: &Case, log: &RunLog, stats: &mut Stats) -> Vec<Reco
     // the acknowledgement that released them (only used to label a finding, never for a verdict)
     let mut released_by: BTreeMap<String, String> = BTreeMap::new();
     let mut parked: Option<(u16, String)> = None;
-    let mut taint: Option<(usize, String, Record)> = None;
+    // the connection a read batch ran on whose events were reported up to poll record `i`: events
+    // of a connection that failed inside the batch are only reported after the reconnect
+    let batch_conn = |i: usize| -> usize {
+        let j = log.polls[..i].iter().rposition(|q| q.snap.queued_events_len == 0).unwrap_or(0);
+        log.polls[j..=i]
+            .iter()
+            .find(|q| q.err().is_some())
+            .or(Some(&log.polls[i]))
+            .and_then(|q| q.conn)
+            .unwrap_or(0)
+    };
+    let mut taint: Option<(usize, Record)> = None; // (connection the release happened on, record)
     for (i, p) in log.polls.iter().enumerate() {
         if p.is(false, Kind::AwaitAck) {
             if let (Some(id), Some(pl)) = (p.snap.collision, p.snap.collision_payload.clone()) {
@@ -244,7 +255,44 @@ fn verdicts(ctx: &Ctx, case: &Case, log: &RunLog, stats: &mut Stats) -> Vec<Reco
                             // bookkeeping is corrupt from here on: only used to stop judging when this
                             // is a listed finding; it is C02's statement, not C11's
                             if crate::common::match_known(&ctx.known, &r).is_some() {
-                                taint = Some((i, pl.clone(), r));
+                                taint = Some((batch_conn(i), r));
+                            }
+                        }
+                        // A PUBCOMP(id) ends the QoS 2 flow that owned the id; if meanwhile another
+                        // publish was given the same id (ids are re-issued between PUBREC and PUBCOMP)
+                        // the parked publish was waiting for *that* one. Releasing it now evicts the
+                        // holder from the unacknowledged table.
+                        if prev.pk.kind == Kind::PubComp && taint.is_none() {
+                            // last return before the read batch that carried the PUBCOMP
+                            let j = log.polls[..i - 1].iter().rposition(|q| q.snap.queued_events_len == 0);
+                            let lost_session = |a: usize, b: usize| {
+                                log.polls[a..b].iter().any(|q| q.is(true, Kind::ConnAck) && !q.ev().unwrap().pk.flag)
+                            };
+                            if let Some(j) = j {
+                                let books = |q: &PollRec| -> Vec<Req> { q.snap.held.iter().chain(q.snap.pending.iter()).cloned().collect() };
+                                let holder = books(&log.polls[j])
+                                    .into_iter()
+                                    .find(|r| r.kind == Kind::Publish && r.pkid == *id && r.payload != *pl);
+                                if let Some(h) = holder {
+                                    let acked_between = log.polls[j + 1..=i].iter().any(|q| {
+                                        q.ev().map(|e| e.incoming && e.pk.pkid == *id && matches!(e.pk.kind, Kind::PubAck | Kind::PubRec)).unwrap_or(false)
+                                    });
+                                    let still = books(p).iter().any(|r| r.kind == Kind::Publish && r.payload == h.payload);
+                                    if !acked_between && !still && !lost_session(j, i) {
+                                        let r = f
+                                            .rec(
+                                                "collision-release-evicted-holder",
+                                                format!(
+                                                    "PUBCOMP({id}) released the parked publish '{pl}' although id {id} was held by the unacknowledged publish '{}', which is now in none of the client's tables",
+                                                    h.payload
+                                                ),
+                                            )
+                                            .fact("released_by", "PubComp");
+                                        if crate::common::match_known(&ctx.known, &r).is_some() {
+                                            taint = Some((batch_conn(i), r));
+                                        }
+                                    }
+                                }
                             }
                         }
                         parked = None;
@@ -271,16 +319,10 @@ fn verdicts(ctx: &Ctx, case: &Case, log: &RunLog, stats: &mut Stats) -> Vec<Reco
         let connack = log.connack_of(n);
         let established = connack.is_some();
         let frames: Vec<&Intended> = rec.intended.iter().collect();
-        if let Some((at, pl, r)) = &taint {
-            // the client's books are corrupt from the release on: connections after the one on
-            // which the released publish went out are not judged (if it never reached the
-            // transport: after the one before the connection the release was reported on)
-            let released_on = log
-                .conns
-                .iter()
-                .position(|c| c.intended.iter().any(|x| x.pk.kind == Kind::Publish && x.pk.payload == *pl))
-                .unwrap_or_else(|| log.polls[*at].conn.unwrap_or(0).saturating_sub(1));
-            if n > released_on {
+        if let Some((released_on, r)) = &taint {
+            // the client's books are corrupt from the release on: connections after the one it
+            // happened on are not judged
+            if n > *released_on {
                 out.push(r.clone());
                 return out;
             }
@@ -389,6 +431,28 @@ fn verdicts(ctx: &Ctx, case: &Case, log: &RunLog, stats: &mut Stats) -> Vec<Reco
                             }
                         }
                         if let Some(b) = bad {
+                            // Facts that say *which* ordering the client used instead. The id of the
+                            // last PUBACK the client processed before the failure, as poll() showed it:
+                            let mut last_acked: u16 = 0;
+                            let mut collision_before = false;
+                            let upto = &log.polls[..=prev_end_poll];
+                            let queued = log.polls[prev_end_poll].snap.queued_events.iter();
+                            for e in upto.iter().filter_map(|p| p.ev()).chain(queued) {
+                                if e.incoming && e.pk.kind == Kind::ConnAck && !e.pk.flag {
+                                    last_acked = 0;
+                                    collision_before = false;
+                                } else if e.incoming && e.pk.kind == Kind::PubAck {
+                                    last_acked = e.pk.pkid;
+                                } else if !e.incoming && e.pk.kind == Kind::AwaitAck {
+                                    collision_before = true;
+                                }
+                            }
+                            // "packet ids ascending, starting behind the last acknowledged id"
+                            let limit = case.inflight;
+                            let key = |c: &Carried| if c.pkid > last_acked { c.pkid - last_acked } else { c.pkid + limit - last_acked };
+                            let mut by_id = sent.clone();
+                            by_id.sort_by_key(|c| key(c));
+                            let explained = by_id.iter().map(|c| &c.ident).eq(sent.iter().map(|c| &c.ident));
                             let wrapped = reference.windows(2).any(|w| w[0].pkid > w[1].pkid);
                             if wrapped {
                                 stats.corner("pkid-wrapped");
@@ -402,8 +466,10 @@ fn verdicts(ctx: &Ctx, case: &Case, log: &RunLog, stats: &mut Stats) -> Vec<Reco
                                         sent.iter().map(|c| format!("{}#{}", c.ident, c.pkid)).collect::<Vec<_>>()
                                     ),
                                 )
+                                .fact("order_is_packet_id_rotation_at_last_puback", explained)
+                                .fact("last_puback", last_acked)
                                 .fact("ids_shared_with_other_requests", qos_mix)
-                                .fact("after_interrupted_replay", replay_interrupted)
+                                .fact("collision_since_session_start", collision_before)
                                 .fact("after_session_loss", session_lost_before)
                                 .fact("wrapped", wrapped),
                             );
